@@ -132,6 +132,12 @@ func init() {
 		Fixtures:    []string{"a3", "u"},
 		Run:         runC07,
 		SelfTest: []Mutation{
+			{Name: "InterpNormalTriangle.RayCollisions reports hits behind the origin", File: "model3d/primitives.go",
+				Old: "\tinfo, scale := i.Triangle.rayCollision(r)\n\tif info == nil || scale < 0 {", New: "\tinfo, scale := i.Triangle.rayCollision(r)\n\tif info == nil {", Rule: "SIGNED", Expect: "InterpNormalTriangle"},
+			{Name: "Segment.FirstRayCollision accepts negative parameters", File: "model2d/primitives.go",
+				Old: "collides && scale >= 0 {\n\t\treturn RayCollision{", New: "collides {\n\t\treturn RayCollision{", Rule: "SIGNED", Expect: "Segment"},
+			{Name: "sign test rewritten as !(scale >= 0) (behaviour preserved)", File: "model3d/primitives.go", Clean: true,
+				Old: "\tinfo, scale := t.rayCollision(r)\n\tif info == nil || scale < 0 {", New: "\tinfo, scale := t.rayCollision(r)\n\tif info == nil || !(scale >= 0) {", Rule: "SIGNED"},
 			{Name: "transformedCollider without nil pass-through", File: "model3d/transform.go",
 				Old: "\tif f == nil {\n\t\treturn t.c.RayCollisions(t.innerRay(r), nil)\n\t}\n", New: "", Rule: "A3.GUARD", Expect: "transformedCollider"},
 			{Name: "Cone closure forgets to count", File: "model3d/shapes.go",
@@ -180,6 +186,8 @@ func runC07(c *Ctx) {
 	c.floor("A3.CNT", 30)
 	c.floor("A3.GUARD", 25)
 	c.floor("A3.NILDEP", 25)
+	c.runSigned("SIGNED", upkgs)
+	c.floor("SIGNED", 8)
 }
 
 // allRepoPkgs: every loaded root package of the repository plus the fixtures.
